@@ -26,6 +26,10 @@ def arc_tree(r):
         ext = r.choice([".zip", ".zip", ".jar", ".war", ".ear", ".ZIP", ".Jar", ".tar", ""])
         name = (d + "/" if d else "") + "arc%d%s" % (i, ext)
         members = fstree.gen_zip_members(r, r.choice([0, 1, 3, 7]))
+        if members and r.chance(1, 3):
+            cand = [m for m in members if not m["name"].endswith("/")]
+            if cand:
+                r.choice(cand)["encrypted"] = True      # a member that cannot be opened
         ents.append({"path": name, "kind": "z", "members": members, "compress": r.chance(1, 2), "mtime": 1700000000 + i})
     if r.chance(1, 2):
         d = r.choice(dirs)
